@@ -5,7 +5,7 @@ from .c11 import text_of, fmt_any
 
 THEOREMS = ["C10_reorder", "C10_split", "C10_rename_balance", "C10_completion_order_independent",
             "C10_aux_order_independent", "C10_sorted", "C10_text_is_read_by_trimmed_lines", "C10_text_whitespace",
-            "C10_text_ignored_line", "C10_text_bom", "C10_text_crlf"]
+            "C10_text_ignored_line", "C10_text_bom", "C10_text_crlf", "C10_text_explicit_id0", "C10_text_omitted_id_is_zero"]
 
 
 def line_of(kind, kw, omit_id0=False, pad=""):
@@ -102,7 +102,7 @@ def run(tier, seed):
     return metacheck.run("C10", tier, seed, THEOREMS, make_pairs,
                          "data-level theorems (reorder, split, rename in the balance; order independence of completion and auxiliary "
                          "assignment; stable final sort) and text-level theorems over the reader model (the reader sees the text through "
-                         "its trimmed lines; white space, ignored lines, BOM, CR before LF). Partial: the omitted id 0 and repeated evaluation (other hash-map orders; bit-identical results required) are established by the "
+                         "its trimmed lines; white space, ignored lines, BOM, CR before LF, explicit id 0). Partial: repeated evaluation (other hash-map orders; bit-identical results required) are established by the "
                          "differential run on the implementation only; f32 summation order is not modelled",
                          "each base file is rewritten by two of {line reorder, split of components into two lines adding up, consistent id "
                          "renumbering, decoration with comments/blank lines/header/BOM/CRLF/white space/omitted id 0} and re-evaluated "
